@@ -21,6 +21,11 @@ theorem unregister_all_purges : unregister_all_purges_queues = true := by
 theorem remove_by_key : registry_remove_by_identity = false ∧ registry_remove_inner_by_identity = false := by
   simp [registry_remove_by_identity, registry_remove_inner_by_identity]
 
+/-- D19: the synchronous wrappers wait for the broadcast task they start -/
+theorem sync_wrappers_await : sync_unregister_awaits_goodbyes = true ∧ sync_register_awaits_announcements = true ∧
+    sync_update_awaits_announcements = true := by
+  simp [sync_unregister_awaits_goodbyes, sync_register_awaits_announcements, sync_update_awaits_announcements]
+
 /-- `async_send` sends nothing once `done` -/
 theorem send_is_noop_eq (d : Bool) : send_is_noop d = d := by simp [send_is_noop]
 
